@@ -478,6 +478,19 @@ class World:
         """Kind-aware wrapper: for a server the probe response is of the kind matching the request (a stricter server
         may refuse kind-mismatched responses); returns None when the state does not allow such a probe."""
         se = self.s[who]
+        if se.role == "s" and kind == "mixed":
+            # an id that was received for requests of different kinds: in progress if a response of either kind is accepted
+            if state_name(se.real) != "OPENED":
+                return None
+            got = False
+            for meth, args in (("search_result_entry", (mid, "", [])), ("extended_response", (mid,))):
+                cp = self.clone(who)
+                try:
+                    getattr(cp, meth)(*args)
+                    got = True
+                except Exception:  # noqa: BLE001
+                    pass
+            return got
         if se.role == "s" and kind in ("SearchRequest", "ExtendedRequest"):
             cp = self.clone(who)
             if state_name(cp) != "OPENED":
